@@ -217,7 +217,11 @@ def shrink(check, case, failures, known, max_evals=300):
     t_end = time.monotonic() + SHRINK_BUDGET_S       # large (scale) cases are expensive to re-run: shrinking is best effort
     while progress and evals < max_evals and time.monotonic() < t_end:
         progress = False
-        for cand in check.shrink(case):
+        try:
+            candidates = list(check.shrink(case)) if not (isinstance(case, dict) and case.get('watchdog_s')) else []
+        except Exception:           # noqa: BLE001 - shrinking is best effort; the unshrunk witness stands
+            candidates = []
+        for cand in candidates:
             evals += 1
             if evals > max_evals or time.monotonic() > t_end:
                 break
